@@ -33,6 +33,8 @@ type c17Case struct {
 	Seed     int64      `json:"seed"`
 	Names    int        `json:"names,omitempty"`    // 2: the info file lists a second device name to fall back to
 	KeyForm  string     `json:"key_form,omitempty"` // PAN-OS: how the keygen reply carries the key ("" plain text, cdata)
+	// drc -u admin on a pseudo terminal, password typed; which streams go to files: none | out | err | both
+	Interactive string `json:"interactive,omitempty"`
 }
 
 func (c *c17Case) id() string {
@@ -46,6 +48,9 @@ func (c *c17Case) id() string {
 	}
 	if c.KeyForm != "" {
 		n += "/key=" + c.KeyForm
+	}
+	if c.Interactive != "" {
+		n += "/tty=" + c.Interactive
 	}
 	return fmt.Sprintf("%s/%s/cmp=%v/%s/fault=%s%s", c.Type, c.FrontEnd, c.Compare, c.Alphabet, f, n)
 }
@@ -122,6 +127,10 @@ func buildC17(c *c17Case) (*liveCase, []secret) {
 	lc.Credentials = "* admin " + pass + "\n"
 	if c.Names > 1 {
 		lc.Names = []string{"router", "router-b"}
+	}
+	if c.Interactive != "" {
+		lc.Interactive, lc.TypedPass = c.Interactive, pass
+		lc.Credentials = "nomatch admin unused\n"
 	}
 	if lc.Cli != nil {
 		lc.Cli.Password = pass
@@ -229,6 +238,13 @@ func checkC17(tier, replay string) int {
 		for i, k := range keys {
 			for _, al := range []string{"alnum", "base64", "special"} {
 				cases = append(cases, &c17Case{Type: k.typ, FrontEnd: k.fe, Compare: k.cmp, Alphabet: al, Seed: rng.Int63()})
+				if k.fe == "drc" && al != "base64" {
+					// Password typed at a terminal (drc -u), with the
+					// standard streams on the terminal or redirected.
+					for _, m := range []string{"none", "out", "err", "both"} {
+						cases = append(cases, &c17Case{Type: k.typ, FrontEnd: k.fe, Compare: k.cmp, Alphabet: al, Seed: rng.Int63(), Interactive: m})
+					}
+				}
 				if k.typ == "panos" {
 					// Same key, other XML spelling of the element content.
 					cases = append(cases, &c17Case{Type: k.typ, FrontEnd: k.fe, Compare: k.cmp, Alphabet: al, Seed: rng.Int63(), KeyForm: "cdata"})
